@@ -559,6 +559,7 @@ inductive Conv where
   | strList   -- object.AsStringSlice
   | bool      -- object.AsBool
   | bytes     -- object.AsBytes
+  | float     -- object.AsFloat (an int or a byte is converted: float64(i))
   deriving Repr, DecidableEq
 
 inductive Inj where
@@ -566,6 +567,8 @@ inductive Inj where
   | int       -- object.NewInt(int64(result))
   | str       -- object.NewString
   | strList   -- object.NewStringList
+  | float     -- object.NewFloat
+  | bytes     -- object.NewByteSlice
   deriving Repr, DecidableEq
 
 /-- a Go-side argument or result -/
@@ -575,6 +578,7 @@ inductive GoVal where
   | bool (b : Bool)
   | strs (l : List Bytes)
   | bytes (s : Bytes)
+  | float (bits : Nat)     -- a float64, by its IEEE-754 bits
   deriving Repr, DecidableEq
 
 /-- a test the exported function makes on its (converted) parameters BEFORE it calls the Go
@@ -621,6 +625,9 @@ def project : Conv → Val → Option GoVal
   | .bytes, .bytes s => some (.bytes s)
   | .bytes, .str s => some (.bytes s)
   | .strList, .list xs => (Vals.toStrs xs).map .strs
+  | .float, .float b => some (.float b)
+  | .float, .int i => some (.float (f64OfInt i))
+  | .float, .byte n => some (.float (f64OfInt n))
   | _, _ => none
 
 def projectAll : List Conv → List Val → Option (List GoVal)
@@ -638,6 +645,7 @@ def inject : GoVal → Val
   | .bool b => .bool b
   | .strs l => .list (Vals.ofStrs l)
   | .bytes s => .bytes s
+  | .float b => .float b
 
 inductive Out where
   | val (v : Val)
